@@ -300,16 +300,21 @@ Proof.
 Qed.
 
 Section RoundMain.
-  Variables (z : Dec) (s : bool) (v : Q).
+  (* t: the mantissa may have been scaled by 10^t after the exact value was
+     truncated (dnorm after a division): then the exact value lies within
+     10^t units above N and N is a multiple of 10^t *)
+  Variables (z : Dec) (s : bool) (v : Q) (t : Z).
   Hypothesis Pre : RoundPre z.
   Let N := val (mant z).
   Let L := mdigits (mant z).
   Let x := exp z - L.
   Let p := prec z.
+  Hypothesis Ht : 0 <= t.
+  Hypothesis HNt : N mod 10 ^ t = 0.
   Hypothesis Hlo : (scaled N x <= v)%Q.
-  Hypothesis Hhi : (v < scaled (N + 1) x)%Q.
+  Hypothesis Hhi : (v < scaled (N + 10 ^ t) x)%Q.
   Hypothesis Hs0 : s = false -> (v == scaled N x)%Q.
-  Hypothesis Hs1 : s = true -> (scaled N x < v)%Q /\ p < L.
+  Hypothesis Hs1 : s = true -> (scaled N x < v)%Q /\ p + t < L.
 
   Lemma NL : 10 ^ (L - 1) <= N < 10 ^ L.
   Proof. destruct Pre. now apply mant_val_bounds. Qed.
@@ -325,12 +330,6 @@ Section RoundMain.
     eapply Qle_trans; [|exact Hlo]. pose proof NL. pose proof L_pos.
     apply (scaled_le_gen _ _ _ _ x); unfold x; try lia.
     replace (exp z - 1 - (exp z - L)) with (L - 1) by lia. rewrite Z.sub_diag, Z.pow_0_r. lia.
-  Qed.
-  Lemma v_upper : (v <= scaled 1 (exp z))%Q.
-  Proof.
-    apply Qlt_le_weak. eapply Qlt_le_trans; [exact Hhi|]. pose proof NL. pose proof L_pos.
-    apply (scaled_le_gen _ _ _ _ x); unfold x; try lia.
-    replace (exp z - (exp z - L)) with L by lia. rewrite Z.sub_diag, Z.pow_0_r. lia.
   Qed.
   Lemma not_underflow : ~ (v < scaled 1 (MinExp - 1))%Q.
   Proof.
@@ -412,13 +411,50 @@ Section RoundMain.
     destruct (round_inc_eq (dmode z) (neg z) N k s sb HN0 Hk Hsb Hsbs) as [Hguard Hinc].
     cbn zeta in Hguard, Hinc. fold P M0 rem rd low in Hguard, Hinc.
     rewrite Hguard.
-    (* the specification side *)
-    assert (HNpk : 10 ^ (p + k - 1) <= N < 10 ^ (p + k)) by (replace (p + k) with L by (unfold k; lia); exact HNL).
-    assert (Hs1' : s = true -> (scaled N x < v)%Q) by (intros E; apply (Hs1 E)).
-    pose proof (inc_dec_rounds (dir_of (dmode z) (neg z)) p N k x s v ltac:(lia) Hk HNpk Hlo Hhi Hs0 Hs1') as HR.
-    pose proof (inc_dec_acc (dir_of (dmode z) (neg z)) p N k x s v ltac:(lia) Hk Hlo Hhi Hs0 Hs1' (neg z)) as HA.
-    pose proof (M0_bounds p N k ltac:(lia) Hk HNpk) as HM0b.
-    cbn zeta in HR, HA. fold P M0 rem in HR, HA, HM0b.
+    (* the specification side: work in units of 10^te, te = t if sticky else 0 *)
+    set (te := if s then t else 0).
+    assert (Hte : 0 <= te < k).
+    { unfold te. destruct s; [destruct (Hs1 eq_refl); unfold k; lia|lia]. }
+    set (T := 10 ^ te). assert (HT : 0 < T) by (apply pow10_pos; lia).
+    assert (HNT : N mod T = 0) by (unfold T, te; destruct s; [exact HNt|now rewrite Z.pow_0_r, Z.mod_1_r]).
+    set (N2 := N / T).
+    assert (EN2 : N = N2 * T) by (unfold N2; rewrite (Z.div_mod N T) at 1 by lia; rewrite HNT; ring).
+    set (k2 := k - te). assert (Hk2 : 1 <= k2) by (unfold k2; lia).
+    set (x2 := x + te).
+    assert (HN2 : 0 <= N2) by (apply Z.div_pos; lia).
+    assert (Hlo2 : (scaled N2 x2 <= v)%Q).
+    { unfold x2. rewrite <- scaled_pow by lia. fold T. rewrite <- EN2. exact Hlo. }
+    assert (Hhi2 : (v < scaled (N2 + 1) x2)%Q).
+    { unfold x2. rewrite <- scaled_pow by lia. fold T. replace ((N2 + 1) * T) with (N + T) by (rewrite EN2; ring).
+      unfold T, te. destruct s eqn:Es; [exact Hhi|]. rewrite Z.pow_0_r.
+      rewrite (Hs0 eq_refl). apply scaled_lt_same. lia. }
+    assert (Hs02 : s = false -> (v == scaled N2 x2)%Q).
+    { intros E. unfold x2. rewrite <- scaled_pow by lia. fold T. rewrite <- EN2. exact (Hs0 E). }
+    assert (Hs12 : s = true -> (scaled N2 x2 < v)%Q).
+    { intros E. unfold x2. rewrite <- scaled_pow by lia. fold T. rewrite <- EN2. apply (Hs1 E). }
+    assert (HNpk2 : 10 ^ (p + k2 - 1) <= N2 < 10 ^ (p + k2)).
+    { assert (EL : L = p + k2 + te) by (unfold k2, k; lia). rewrite EL in HNL.
+      replace (p + k2 + te - 1) with (p + k2 - 1 + te) in HNL by lia.
+      rewrite (Z.pow_add_r 10 (p + k2 - 1) te), (Z.pow_add_r 10 (p + k2) te) in HNL by lia. fold T in HNL.
+      destruct HNL as [HNLa HNLb]. rewrite EN2 in HNLa, HNLb.
+      split; [apply (Z.mul_le_mono_pos_r _ _ T HT); exact HNLa|apply (Z.mul_lt_mono_pos_r T _ _ HT); exact HNLb]. }
+    pose proof (inc_dec_rounds (dir_of (dmode z) (neg z)) p N2 k2 x2 s v ltac:(lia) Hk2 HNpk2 Hlo2 Hhi2 Hs02 Hs12) as HR.
+    pose proof (inc_dec_acc (dir_of (dmode z) (neg z)) p N2 k2 x2 s v ltac:(lia) Hk2 Hlo2 Hhi2 Hs02 Hs12 (neg z)) as HA.
+    pose proof (M0_bounds p N2 k2 ltac:(lia) Hk2 HNpk2) as HM0b.
+    cbn zeta in HR, HA.
+    assert (EP : P = 10 ^ k2 * T) by (unfold P, T, k2; rewrite <- Z.pow_add_r by lia; f_equal; lia).
+    assert (EM : N2 / 10 ^ k2 = M0).
+    { unfold M0. rewrite EP, EN2. rewrite Z.div_mul_cancel_r by (try lia; pw). reflexivity. }
+    assert (Eincs : inc_dec (dir_of (dmode z) (neg z)) (N2 / 10 ^ k2) (N2 mod 10 ^ k2) (10 ^ k2) s =
+                   inc_dec (dir_of (dmode z) (neg z)) M0 rem P s).
+    { unfold M0, rem. rewrite EP, EN2. symmetry. apply inc_dec_scale; try lia; pw. }
+    assert (Erem0 : (N2 mod 10 ^ k2 =? 0) = (rem =? 0)).
+    { unfold rem. rewrite EP, EN2. rewrite Z.mul_mod_distr_r by (try lia; pw).
+      destruct (Z.eqb_spec (N2 mod 10 ^ k2) 0), (Z.eqb_spec (N2 mod 10 ^ k2 * T) 0); try reflexivity; exfalso; nia. }
+    rewrite Eincs, EM in HR. rewrite Eincs, EM, Erem0 in HA. rewrite EM in HM0b. clear Eincs.
+    replace (x2 + k2) with (x + k) in HR, HA by (unfold x2, k2; lia).
+    clear EM Erem0 EP HNpk2 Hlo2 Hhi2 Hs02 Hs12 EN2 HN2 HNT Hk2 Hte HT.
+    clear x2 k2 N2 T te.
     assert (Hxk : x + k = exp z - p) by (unfold x, k; lia). rewrite Hxk in HR, HA.
     pose proof not_underflow as Hnu.
     destruct m1 as [|w1 r1]; [congruence|]. cbv iota.
@@ -578,8 +614,19 @@ End RoundMain.
 
 (* The shared lemma: for a normalised finite z whose mantissa integer N and
    sticky flag s bracket the exact magnitude v (v = N units if s = false,
-   N < v < N+1 units if s = true, one unit = 10^(exp - digits)), round returns
-   the result prescribed by the specification and a canonical Decimal. *)
+   N < v < N + 10^t units if s = true, N a multiple of 10^t, one unit =
+   10^(exp - digits)), round returns the result prescribed by the
+   specification and a canonical Decimal. *)
+Theorem round_correct_gen z (s : bool) v t :
+  RoundPre z -> 0 <= t ->
+  let N := val (mant z) in let x := exp z - mdigits (mant z) in
+  N mod 10 ^ t = 0 ->
+  (scaled N x <= v)%Q -> (v < scaled (N + 10 ^ t) x)%Q ->
+  (s = false -> (v == scaled N x)%Q) ->
+  (s = true -> (scaled N x < v)%Q /\ prec z + t < mdigits (mant z)) ->
+  exists z', round z (b2z s) = Some z' /\ RoundPost z v z'.
+Proof. intros. now apply (round_correct_sec z s v t). Qed.
+
 Theorem round_correct z (s : bool) v :
   RoundPre z ->
   let N := val (mant z) in let x := exp z - mdigits (mant z) in
@@ -587,4 +634,8 @@ Theorem round_correct z (s : bool) v :
   (s = false -> (v == scaled N x)%Q) ->
   (s = true -> (scaled N x < v)%Q /\ prec z < mdigits (mant z)) ->
   exists z', round z (b2z s) = Some z' /\ RoundPost z v z'.
-Proof. intros. now apply round_correct_sec. Qed.
+Proof.
+  intros Pre N x Hlo Hhi Hs0 Hs1. apply (round_correct_gen z s v 0); try assumption; try lia.
+  - apply Z.mod_1_r.
+  - intros E. destruct (Hs1 E). split; [assumption|]. rewrite Z.add_0_r. assumption.
+Qed.
